@@ -148,12 +148,14 @@ def proj_lifetime(op, line):
 PROPS = {
     "C01": dict(runs=[("core", "hist", dict(quick=1500, thorough=40000))], proj=proj_allowed, tags=["C01"],
                 rule="multi-key monotone histories on a random store configuration; gaps drawn from the refill/expiry/cleanup boundary set; all O(n^2) windows of every fixed-limits key summed; non-trivial = the history has both admitted and denied requests; distinct = hash of configuration + request lines"),
-    "C02": dict(runs=[("core", "hist", dict(quick=1500, thorough=40000)), ("server", "actor", dict(quick=60, thorough=600))], proj=proj_allowed, tags=["C02"],
+    "C02": dict(runs=[("core", "hist", dict(quick=1500, thorough=40000)), ("server", "actor", dict(quick=60, thorough=600)), ("core", "popul", dict(quick=0, thorough=8)), ("server", "wire", dict(quick=40, thorough=400))], proj=proj_allowed, tags=["C02"],
                 # the server's actor must hand the limits to the library unchanged for every store kind: its traces are
                 # replayed through the model and on a fresh library limiter
-                tags_by_mode={"actor": ["C09"]},
-                rule="same histories as C01; every decision compared with an exact integer token bucket (capacity burst, one token per emission interval); non-trivial = both admitted and denied requests present"),
-    "C03": dict(runs=[("core", "hist", dict(quick=1000, thorough=20000)), ("core", "probe", dict(quick=800, thorough=12000))], proj=proj_fields, tags=["C03"],
+                # ... and a transport must hand the request over unchanged (a probe of quantity 0 that arrives as 1 starves the key)
+                tags_by_mode={"actor": ["C09"], "popul": ["C08"], "wire": ["C12"]},
+                rule="popul: up to 1.1 million simultaneously live keys per store (a never-seen key must be admitted whatever the population); same histories as C01; every decision compared with an exact integer token bucket (capacity burst, one token per emission interval); non-trivial = both admitted and denied requests present"),
+    "C03": dict(runs=[("core", "hist", dict(quick=1000, thorough=20000)), ("core", "probe", dict(quick=800, thorough=12000)), ("core", "popul", dict(quick=0, thorough=8))], proj=proj_fields, tags=["C03"],
+                tags_by_mode={"popul": ["C02"]},
                 rule="hist: every response's fields against the bucket (remaining exact, retry_after exact, reset_after >= refill time, reset_after = lifetime asked of the store); probe: sampled responses probed from a re-executed copy of their state (remaining / remaining+1, retry_after / retry_after-1ns, after reset_after = never-seen key)"),
     "C04": dict(runs=[("core", "insert", dict(quick=1500, thorough=30000)), ("server", "wire", dict(quick=40, thorough=400))], proj=proj_resp_trace, tags=["C04"],
                 # zero-quantity and rejected requests must stay without effect when they arrive through a transport: the wire mode
@@ -161,15 +163,20 @@ PROPS = {
                 # budget afterwards with what was sent (its discrepancies carry the tag C12)
                 tags_by_mode={"wire": ["C12"]},
                 rule="base history vs the same history with denied / zero-quantity / invalid requests inserted at random positions and times (also under other limits); every base response must be unchanged; rejected requests must issue no store operation and create no entry"),
-    "C05": dict(runs=[("core", "iso", dict(quick=400, thorough=6000))], proj=proj_resp, tags=["C05"],
+    "C05": dict(runs=[("core", "iso", dict(quick=400, thorough=6000)), ("server", "wire", dict(quick=40, thorough=400))], proj=proj_resp, tags=["C05"],
+                # keys must reach the limiter byte for byte: near-identical and long shared-prefix key families over HTTP, gRPC and RESP
+                tags_by_mode={"wire": ["C09", "C12"]},
+                profiles=["release", "stdhash"],
                 rule="interleaved multi-key history (keys: empty, NUL, Unicode, 64 KiB, one-byte differences; 20-70% noise keys so the table grows and every cleanup trigger fires) vs the solo run of each key on a fresh limiter"),
-    "C06": dict(runs=[("core", "storeops", dict(quick=600, thorough=3000)), ("core", "hist", dict(quick=300, thorough=5000))], proj=proj_full, tags=["C06"],
+    "C06": dict(runs=[("core", "storeops", dict(quick=600, thorough=3000)), ("core", "hist", dict(quick=300, thorough=5000)), ("core", "popul", dict(quick=0, thorough=8))], proj=proj_full, tags=["C06"],
                 # a store operation that panics is not the behaviour of a map
-                tags_by_mode={"storeops": ["C08"], "hist": ["C08"]},
+                tags_by_mode={"storeops": ["C08"], "hist": ["C08"], "popul": ["C02", "C03", "C08"]},
+                # hashing is the one thing the `ahash` feature changes: the store modes also run against the library built without it
+                profiles=["release", "stdhash"],
                 rule="raw get/set-if-absent/compare-and-swap sequences on the three real stores in random (also degenerate) configurations, times straddling every cleanup trigger; snapshot of entries and scheduling state compared with the model after every operation; answers compared with an independent abstract expiring map"),
-    "C07": dict(runs=[("core", "hist", dict(quick=800, thorough=15000)), ("core", "reclaim", dict(quick=150, thorough=3000))], proj=proj_lifetime, tags=["C07"],
+    "C07": dict(runs=[("core", "hist", dict(quick=800, thorough=15000)), ("core", "reclaim", dict(quick=150, thorough=3000)), ("core", "popul", dict(quick=0, thorough=8))], proj=proj_lifetime, tags=["C07"],
                 rule="hist: lifetime of every store write within [E, 2*B*E]; reclaim: unbounded stream of fresh keys with a bounded active set on cleanup-enabled stores, after every guaranteed cleanup point (interval elapsed / operation budget) no held entry is expired and the entry count is within the active set; probabilistic store (half of its sessions start from the state after 10^9..10^12 writes, a few writes before count*multiplier passes a multiple of 2^64): no entry is expired-and-held over N consecutive write operations"),
-    "C08": dict(runs=[("core", "lattice", dict(quick=0, thorough=1)), ("core", "hist", dict(quick=2000, thorough=20000))], proj=proj_resp, tags=["C08"],
+    "C08": dict(runs=[("core", "lattice", dict(quick=0, thorough=1)), ("core", "hist", dict(quick=2000, thorough=20000)), ("core", "popul", dict(quick=0, thorough=8), ["release"])], proj=proj_resp, tags=["C08"],
                 rule="hist: multi-key histories on every store configuration (incl. min_interval > max_interval, zero intervals, modulus 0/1), with hot keys whose writes land on expired-but-unswept entries dozens of times between two cleanups - any panic is a violation; lattice: boundary lattice {MIN,-1,0,1,2,2^31-1,2^31,2^32-1,2^32,2^32+1,2^53-1,2^53+1,2^63/1e9 -+1,MAX-1,MAX}^4 (thorough: 24^4) x 4 timestamps 1970..2200 x fresh/pre-populated x 3 stores, plus random points; harness built with overflow checks on (debug profile) and off (release)",
                 profiles=["release", "dev"]),
     "C17": dict(runs=[("core", "regress", dict(quick=600, thorough=10000))], proj=proj_allowed, tags=["C17"],
@@ -371,7 +378,7 @@ def alt_harness():
         return
     alt = os.path.join(WORK, "altharness-" + hashlib.sha1(REPO.encode()).hexdigest()[:8])
     os.makedirs(alt, exist_ok=True)
-    sh(["rsync", "-a", "--delete", "--exclude", "target", os.path.join(ROOT, "harness") + "/", alt + "/"])
+    sh(["rsync", "-a", "--delete", "--exclude", "target", "--exclude", "target-stdhash", os.path.join(ROOT, "harness") + "/", alt + "/"])
     for root, _, files in os.walk(alt):
         if "/target" in root:
             continue
@@ -425,13 +432,20 @@ def build_all(profiles=("release",)):
                 return False, "cargo build of the server binary from the working tree failed:\n" + out[-3000:]
             ENV["TCV_SERVER_BIN"] = os.path.join(tdir, "release", "throttlecrab-server")
         for prof in profiles:
-            cmd = ["cargo", "build", "--offline", "-q"] + (["--release"] if prof == "release" else [])
+            if prof == "stdhash":
+                # the library without its default `ahash` feature (std HashMap / SipHash): tcv-core alone, own target dir
+                cmd = ["cargo", "build", "--offline", "-q", "--release", "-p", "tcv-core", "--no-default-features",
+                       "--target-dir", os.path.join(HARNESS, "target-stdhash")]
+            else:
+                cmd = ["cargo", "build", "--offline", "-q"] + (["--release"] if prof == "release" else [])
             rc, out = sh(cmd, cwd=HARNESS, timeout=3000)
             if rc != 0:
                 return False, f"cargo build ({prof}) of the harness against /repo failed:\n" + out[-3000:]
     return True, ""
 
 def harness_bin(crate, prof):
+    if prof == "stdhash":
+        return os.path.join(HARNESS, "target-stdhash", "release", f"tcv-{crate}")
     return os.path.join(HARNESS, "target", "release" if prof == "release" else "debug", f"tcv-{crate}")
 
 # ------------------------------------------------------------------------------------------------
@@ -568,7 +582,7 @@ def run_core(pid, tier, seed):
     shutil.rmtree(wdir, ignore_errors=True)
     log(f"[{pid}] tier={tier} seed={seed}")
     global NEED_BINARY
-    NEED_BINARY = any(mode == "binary" for (_, mode, _) in spec["runs"])
+    NEED_BINARY = any(run[1] == "binary" for run in spec["runs"])
     ok, detail = build_all(profiles)
     violations = []   # (replay_path, suffix)
     known_lines = []
@@ -607,7 +621,12 @@ def run_core(pid, tier, seed):
     # ---- M, O
     runs = []
     for prof in profiles:
-        for (crate, mode, ns) in spec["runs"]:
+        for run in spec["runs"]:
+            (crate, mode, ns) = run[:3]
+            if len(run) > 3 and prof not in run[3]:
+                continue          # this run is restricted to some build profiles
+            if prof == "stdhash" and crate != "core":
+                continue          # the std-hasher build exists for the library-level harness only
             r = run_mode(pid, crate, mode, ns[tier], seed, prof, os.path.join(wdir, prof), spec["proj"])
             runs.append(r)
             log(f"[{pid}] M/O {mode}[{prof}] n={ns[tier]}: {r['lines']} lines, {r['compared']} compared, {r.get('n_mismatches', 0)} model mismatches, "
@@ -623,7 +642,8 @@ def run_core(pid, tier, seed):
     if (not p["ok"] or m_broken) and not o_viols:
         log(f"[{pid}] proof or correspondence broken: searching the implementation for a failing input")
         for extra in range(1, 3):
-            for (crate, mode, ns) in spec["runs"]:
+            for run in spec["runs"]:
+                (crate, mode, ns) = run[:3]
                 r = run_mode(pid, crate, mode, ns[tier], seed + 1000 * extra, profiles[0], os.path.join(wdir, f"search{extra}"), spec["proj"])
                 runs.append(r)
                 o_viols += [v for v in r["viols"] if v["tag"] in tags_for(r)]
